@@ -45,12 +45,13 @@ def preprocess(repo, rel):
     p = subprocess.run(cmd, stdout=subprocess.PIPE, stderr=subprocess.PIPE, text=True, errors="replace")
     if p.returncode != 0:
         raise Refuse(f"g++ -E {rel} failed: {p.stderr[-300:]}")
-    return p.stdout
+    return fold_verify(p.stdout)
 
 
 def fold_verify(text):
     """`VERIFY(x)` after `g++ -E` -> `VERIFY(x)` again (the expansion contains string literals)"""
-    return re.sub(r"\(\(void\)\(!\((.*?)\) && Debug::printf\(\"[^\n]*?\"\) && \(__builtin_trap\(\), 1\)\)\);", r"VERIFY(\1);", text)
+    text = re.sub(r"\(\(void\)\(!\(([^\n]*?)\) && Debug::printf\(\"%s:%u: assertion failed[^\n]*?\"\) && \(__builtin_trap\(\), 1\)\)\);", ";", text)
+    return re.sub(r"\(\(void\)\(!\(([^\n]*?)\) && Debug::printf\(\"%s:%u: verification failed[^\n]*?\"\) && \(__builtin_trap\(\), 1\)\)\);", r"VERIFY(\1);", text)
 
 
 def balanced(src, start, op="{", cl="}"):
@@ -204,8 +205,9 @@ class Parser:
         names = [w for w in words if w != "::"]
         ref = ""
         k = j
-        while k < len(self.t) and self.t[k] in ("&", "*"):
-            ref += self.t[k]
+        while k < len(self.t) and self.t[k] in ("&", "*", "const"):
+            if self.t[k] != "const":
+                ref += self.t[k]
             k += 1
         # `T x =` / `T x;`: at least two identifiers in a row, or identifier(s) + &/* + identifier
         if ref:
@@ -392,7 +394,10 @@ class Tr:
         self.data, self.outptr, self.outref, self.rettype = data, outptr, outref, rettype
         self.n = 0
         self.size = 0
-        self.helpers = {}        # other member functions of ClientImpl: name -> (parameter text, body text); inlined at the call
+        self.helpers = {}        # other functions of the translation unit: name -> {params, body, member}; inlined at the call
+        self.event_names = EVENT_NAMES
+        self.aliases = {}        # `Buffer &backlog = client._sendBuffer;` : local name -> member chain
+        self._cur_env = None
         self.inlining = []
         self.nopq = 0
 
@@ -416,6 +421,8 @@ class Tr:
     def chain(self, e):
         """flatten `a.b->c` into ['a','b','c'] with the names of the client itself removed; None when not a chain"""
         if e[0] == "name":
+            if e[1] in self.aliases:
+                return list(self.aliases[e[1]])
             return [] if e[1] in self.self_names else [e[1]]
         if e[0] == "member":
             c = self.chain(e[1])
@@ -428,7 +435,8 @@ class Tr:
 
     def is_self_expr(self, e):
         """`(ClientImpl *)pollEvent.socket`"""
-        return e[0] == "cast" and e[1].replace(" ", "") == "ClientImpl*" and e[2] == ("member", ("name", "pollEvent"), "socket")
+        return (e[0] == "cast" and e[1].replace(" ", "") == "ClientImpl*" and e[2][0] == "member" and e[2][2] == "socket"
+                and e[2][1][0] == "name" and e[2][1][1] in self.event_names)
 
     def is_self(self, e):
         """`this`, `&client`"""
@@ -463,6 +471,8 @@ class Tr:
             n = e[1]
             if n in env.locs:
                 return env.locs[n]
+            if n in CONSTS:
+                return self.tx(CONSTS[n], env)
             if self.data and n == self.data:
                 return ("(0 : Int)", "dptr")
             if n == "nullptr":
@@ -606,7 +616,7 @@ class Tr:
         if self.machine == "client":
             if key == "_suspended":
                 return (f"(P.suspended {s})", "bool")
-            if key == "pollEvent.flags":
+            if key is not None and key.endswith(".flags") and key[:-6] in self.event_names:
                 return ("flags", "pf")
         self.refuse(f"unknown member `{key}`")
 
@@ -623,6 +633,21 @@ class Tr:
             return K["next"](env)
         st, rest = stmts[0], stmts[1:]
         k = st[0]
+        if self.helpers and k in ("expr", "decl", "if", "return", "switch"):
+            ex = {"expr": 1, "decl": 4, "if": 1, "return": 1, "switch": 1}[k]
+            self._cur_env = env
+            if st[ex] is not None and not (k == "expr" and self.helper_of(st[ex], env) is not None):
+                call = self.find_helper_call(st[ex])
+                if call is not None:
+                    def cont(back, v):
+                        if v is None:
+                            self.refuse("the value of a void helper function is used")
+                        tmp = self.fresh("h")
+                        back.locs["%" + tmp] = v
+                        st2 = list(st)
+                        st2[ex] = Tr.replace_node(st[ex], call, ("name", "%" + tmp))
+                        return self.seq([tuple(st2)] + list(rest), back, K)
+                    return self.inline(call, env, cont)
         if k == "block":
             outer = dict(env.locs)
 
@@ -708,6 +733,9 @@ class Tr:
             if init[0] == "un" and init[1] == "*" and self.is_self_expr(init[2]):
                 self.self_names.add(var)
                 return self.seq(rest, env, K)
+        if ref == "&" and init is not None and self.machine == "client" and self.key(init) == "_sendBuffer":
+            self.aliases[var] = ["_sendBuffer"]
+            return self.seq(rest, env, K)
         if ref:
             self.refuse(f"declaration of `{tname} {ref}{var}`")
         if init is None:
@@ -726,8 +754,9 @@ class Tr:
             return self.let(r, call, self.let(s2, f"{r}.1", self.let(v, f"{r}.2", self.seq(rest, e2, K))))
         t, ty = self.tx(init, env)
         if ty == "zero":
-            ty = self.local_type(var, rest) or "int"
-            t = self.as_ty(t, "zero", ty)
+            # `uint flags = 0;` — an empty flag set or the number 0: decided by what is combined with it later
+            env.locs[var] = ("(0 : Int)", "zero")
+            return self.seq(rest, env, K)
         v = self.fresh(var)
         env.locs[var] = (v, ty)
         return self.let(v, t, self.seq(rest, env, K))
@@ -797,34 +826,109 @@ class Tr:
                 return f"P.sysRecv {s} {n}"
         return None
 
-    def inline(self, name, args, rest, env, K):
-        """a call of another (void) member function of ClientImpl: its body is translated in place"""
-        if name in self.inlining or len(self.inlining) > 3:
-            self.refuse(f"recursive call of `{name}`")
-        params, body = self.helpers[name]
-        pn = param_names(params, f"ClientImpl::{name}", len(args))
-        locs = {}
-        for p_, a in zip(pn, args):
-            t, ty = self.tx(a, env)
-            if ty not in ("int", "zero", "dptr", "bool", "pf"):
-                self.refuse(f"argument of `{name}` of type {ty}")
-            locs[p_] = (t, "int" if ty == "zero" else ty)
-        e2 = Env(locs, env.state, env.outs)
+    def helper_of(self, call, env):
+        """(name, args without the client argument, client parameter index or None) when `call` is a call of a known helper"""
+        if call[0] != "call":
+            return None
+        fn, args = call[1], call[2]
+        if self.machine == "client":
+            k = self.key(fn)
+            if k in self.helpers and self.helpers[k]["member"]:
+                return (k, args, None)
+            if fn[0] == "name" and fn[1] in self.helpers and not self.helpers[fn[1]]["member"]:
+                idx = [i for i, a in enumerate(args) if self.is_self_ref(a)]
+                if len(idx) == 1:
+                    return (fn[1], args, idx[0])
+            return None
+        if fn[0] == "name" and fn[1] in self.helpers and not self.helpers[fn[1]]["member"]:
+            return (fn[1], args, None)
+        return None
 
-        def after(e3):
+    def find_helper_call(self, e, cond=False):
+        """first helper call inside `e` in evaluation order; refuses when it is only conditionally evaluated"""
+        if not isinstance(e, tuple):
+            return None
+        k = e[0]
+        if k == "call":
+            for a in e[2]:
+                r = self.find_helper_call(a, cond)
+                if r is not None:
+                    return r
+            if self._cur_env is not None and self.helper_of(e, self._cur_env) is not None:
+                if cond:
+                    self.refuse("a helper function is called in a conditionally evaluated operand")
+                return e
+            return self.find_helper_call(e[1], cond)
+        if k == "bin":
+            r = self.find_helper_call(e[2], cond)
+            if r is not None:
+                return r
+            return self.find_helper_call(e[3], cond or e[1] in ("&&", "||"))
+        if k == "tern":
+            r = self.find_helper_call(e[1], cond)
+            if r is not None:
+                return r
+            return self.find_helper_call(e[2], True) or self.find_helper_call(e[3], True)
+        if k in ("un", "cast"):
+            return self.find_helper_call(e[2], cond)
+        if k == "member":
+            return self.find_helper_call(e[1], cond)
+        if k == "assign":
+            return self.find_helper_call(e[3], cond)
+        return None
+
+    @staticmethod
+    def replace_node(e, old, new):
+        if e is old:
+            return new
+        if isinstance(e, tuple):
+            return tuple(Tr.replace_node(x, old, new) for x in e)
+        if isinstance(e, list):
+            return [Tr.replace_node(x, old, new) for x in e]
+        return e
+
+    def inline(self, call, env, cont):
+        """translate the body of the helper called by `call` in place; `cont(env', value or None)` continues the caller"""
+        name, args, selfidx = self.helper_of(call, env)
+        if name in self.inlining or len(self.inlining) > 4:
+            self.refuse(f"recursive call of `{name}`")
+        h = self.helpers[name]
+        pn = param_names(h["params"], f"{name}", len(args))
+        locs = {}
+        added_self = None
+        for i, (p_, a) in enumerate(zip(pn, args)):
+            if i == selfidx:
+                added_self = p_
+                continue
+            t, ty = self.tx(a, env)
+            if ty not in ("int", "zero", "dptr", "bool", "pf", "nf"):
+                self.refuse(f"argument of `{name}` of type {ty}")
+            locs[p_] = (t, ty)
+        e2 = Env(locs, env.state, env.outs)
+        saved = (list(self.inlining), set(self.self_names), dict(self.aliases))
+
+        def after(e3, v):
+            inner = (list(self.inlining), set(self.self_names), dict(self.aliases))
+            self.inlining, self.self_names, self.aliases = list(saved[0]), set(saved[1]), dict(saved[2])
             back = env.copy()
             back.state, back.outs = e3.state, dict(e3.outs)
-            return self.seq(rest, back, K)
-        Kh = {"next": after, "ret": lambda e3, v: after(e3) if v is None else self.refuse(f"`{name}` returns a value")}
+            try:
+                return cont(back, v)
+            finally:
+                self.inlining, self.self_names, self.aliases = inner
+        Kh = {"next": lambda e3: after(e3, None), "ret": lambda e3, v: after(e3, v)}
         self.inlining.append(name)
-        saved_data = self.data
+        if added_self:
+            self.self_names.add(added_self)
         try:
-            return self.seq(parse_body(body, f"ClientImpl::{name}"), e2, Kh)
+            return self.seq(parse_body(h["body"], name), e2, Kh)
         finally:
-            self.inlining.pop()
+            self.inlining, self.self_names, self.aliases = list(saved[0]), set(saved[1]), dict(saved[2])
 
     def effect(self, e, rest, env, K):
         s = env.state
+        if e[0] == "call" and self.helpers and self.helper_of(e, env) is not None:
+            return self.inline(e, env, lambda back, v: self.seq(rest, back, K))
 
         def then(newstate_expr):
             s2 = self.fresh("s")
@@ -927,8 +1031,8 @@ class Tr:
                     if ty not in ("int", "zero"):
                         self.refuse("argument of reserve")
                     return self.seq(rest, env, K)
-                if key in self.helpers:
-                    return self.inline(key, args, rest, env, K)
+                if self.helper_of(e, env) is not None:
+                    return self.inline(e, env, lambda back, v: self.seq(rest, back, K))
                 self.refuse(f"unknown call `{key}`")
             self.refuse("unknown call")
         if e[0] == "name" or e[0] == "num":
@@ -946,6 +1050,7 @@ class GTr(Tr):
     def __init__(self, fn, tables, params):
         super().__init__(fn, "gen")
         self.T = tables
+        self.helpers = HELPERS_PRIVATE
         self.params = params          # C++ parameter name -> (lean text, type) or ("key", token)
         self.regs = {}
 
@@ -1006,6 +1111,8 @@ class GTr(Tr):
 
     def tx(self, e, env):
         k = e[0]
+        if k == "name" and e[1] in CONSTS and e[1] not in env.locs:
+            return self.tx(CONSTS[e[1]], env)
         if k == "name" and e[1] in self.params and self.params[e[1]][0] != "key":
             return self.params[e[1]]
         if k == "name" and e[1] in env.locs:
@@ -1122,6 +1229,8 @@ class GTr(Tr):
                 return self.verify(e, rest, env, K, then)
             if key in self.T.get("effect", {}):
                 return then(self.fill(self.T["effect"][key], e, env))
+            if self.helpers and self.helper_of(e, env) is not None:
+                return self.inline(e, env, lambda back, v: self.seq(rest, back, K))
             self.refuse(f"unknown call `{key}`")
         return super().effect(e, rest, env, K)
 
@@ -1143,7 +1252,8 @@ POLL_TABLES = {
     "argtokens": ("SocketInfo()", "@sock.socket"),
     "structs": ("epoll_event",),
     "iter_end": {"sock": "sockets.end()", "sel": "selectedSockets.end()"},
-    "pure": {"&socket.s": ("(P.sockFd {s})", "int"), "mapEvents(_)": ("(mapEvents {a0})", "nf")},
+    "pure": {"&socket.s": ("(P.sockFd {s})", "int"), "mapEvents(_)": ("(mapEvents {a0})", "nf"),
+             "selectedSockets.isEmpty()": ("(P.selIsEmpty {s})", "bool")},
     "cells": {"@sock.events": ("(P.sockEvents {s})", "P.setSockEvents {s} {v}", "pf"),
               "@selref": ("(P.selEvents {s})", "P.setSelEvents {s} {v}", "pf"),
               "*%sel": ("(P.selEvents {s})", "P.setSelEvents {s} {v}", "pf"),
@@ -1249,6 +1359,24 @@ def outs_text(env, names):
 
 
 HELPERS = {}
+HELPERS_PRIVATE = {}
+EVENT_NAMES = {"pollEvent"}
+SYS_HELPERS = {}
+CONSTS = {}
+
+
+def collect_helpers(src, qual_rx, member, exclude=()):
+    out = {}
+    for m in re.finditer(r"[\w>\*&]\s+" + qual_rx + r"(\w+)\s*\(", src):
+        name = m.group(1)
+        if name in exclude or name in out:
+            continue
+        try:
+            params, body = extract(src, name, r"[\w>\*&]\s+" + qual_rx + name)
+        except Refuse:
+            continue      # overloaded (remove) or only declared
+        out[name] = {"params": params, "body": body, "member": member}
+    return out
 
 
 def tr_client_void(fn, body, self_names=()):
@@ -1297,6 +1425,7 @@ def tr_read(fn, params, body):
 def tr_sys(fn, params, body, nparams, first_switch_only=False):
     names = param_names(params, fn, nparams)
     t = Tr(fn, "sys", data=names[0])
+    t.helpers = SYS_HELPERS
     env = Env({names[1]: ("size", "int")})
     if first_switch_only:
         # Socket::recv(data, maxSize, minSize): the part up to and including the first switch; what follows (`if((usize)r >=
@@ -1373,10 +1502,13 @@ def errno_values():
 
 def dispatch_chain(run_body):
     """the flag tests of the dispatch chain of run(), in program order, with the text of each branch"""
-    rx = re.compile(r"(else\s+)?if\s*\(\s*pollEvent\s*\.\s*flags\s*&\s*(?:Socket\s*::\s*)?(?:Poll\s*::\s*)?(\w+)\s*\)")
+    rx = re.compile(r"(else\s+)?if\s*\(\s*(\w+)\s*\.\s*flags\s*&\s*(?:Socket\s*::\s*)?(?:Poll\s*::\s*)?(\w+Flag)\s*\)")
     ms = list(rx.finditer(run_body))
     if not ms:
         raise Refuse("run(): no dispatch chain found")
+    evname = ms[0].group(2)
+    if any(m.group(2) != evname for m in ms):
+        raise Refuse("run(): the dispatch chain tests two different events")
     order, bodies = [], {}
     pos_end = None
     for j, m in enumerate(ms):
@@ -1393,15 +1525,15 @@ def dispatch_chain(run_body):
         else:
             end = run_body.index(";", k) + 1
             text = run_body[k:end]
-        if m.group(2) in bodies:
-            raise Refuse(f"run(): {m.group(2)} is tested twice")
-        order.append(m.group(2))
-        bodies[m.group(2)] = text
+        if m.group(3) in bodies:
+            raise Refuse(f"run(): {m.group(3)} is tested twice")
+        order.append(m.group(3))
+        bodies[m.group(3)] = text
         pos_end = end
     tail = run_body[pos_end:].strip()
     if tail.startswith("else"):
         raise Refuse("run(): the dispatch chain has a final else")
-    return order, bodies
+    return order, bodies, evname
 
 
 def generate(repo, out_path):
@@ -1415,10 +1547,25 @@ def generate(repo, out_path):
     check_single_bits(nfv, "EPOLL_EVENTS")
     C = r"Server\s*::\s*Private\s*::\s*ClientImpl\s*::\s*"
     defs = []
-    HELPERS.clear()
-    for m in re.finditer(r"void\s+" + C + r"(\w+)\s*\(", srv):
-        if m.group(1) not in ("suspend", "resume"):
-            HELPERS[m.group(1)] = extract(srv, "ClientImpl::" + m.group(1), r"void\s+" + C + m.group(1))
+    HELPERS.clear(); HELPERS_PRIVATE.clear(); SYS_HELPERS.clear(); CONSTS.clear()
+    P_ = r"Server\s*::\s*Private\s*::\s*"
+    HELPERS.update(collect_helpers(srv, C, True, exclude=("suspend", "resume", "write", "read", "ClientImpl")))
+    priv = collect_helpers(srv, P_ + r"(?!ClientImpl\b)", False, exclude=("run", "Private", "clear", "interrupt", "resolve", "listen", "connect", "pair", "time"))
+    for n, h in priv.items():
+        if n not in HELPERS:
+            HELPERS[n] = h
+    HELPERS_PRIVATE.update(priv)
+    for m in re.finditer(r"\bstatic\s+(?:bool|int|void)\s+(\w+)\s*\(\s*\)\s*\{", sock):
+        try:
+            pr, bd = extract(sock, m.group(1), r"\bstatic\s+(?:bool|int|void)\s+" + m.group(1))
+            SYS_HELPERS[m.group(1)] = {"params": pr, "body": bd, "member": False}
+        except Refuse:
+            pass
+    for m in re.finditer(r"\bstatic\s+const\s+(?:int64|int|uint|usize|int32|uint32)\s+(\w+)\s*=\s*([^;{}]+);", srv):
+        try:
+            CONSTS[m.group(1)] = Parser(tokenize(m.group(2)), m.group(1)).expr()
+        except Refuse:
+            pass
     _, b = extract(srv, "ClientImpl::suspend", r"void\s+" + C + "suspend")
     defs.append(("suspend", "{σ : Type} (P : ClientPrims σ) (opq : Nat → Int) (s0 : σ) : σ", tr_client_void("ClientImpl::suspend", b)))
     _, b = extract(srv, "ClientImpl::resume", r"void\s+" + C + "resume")
@@ -1429,7 +1576,17 @@ def generate(repo, out_path):
     p, b = extract(srv, "ClientImpl::read", r"bool\s+" + C + "read")
     defs.append(("read", "{σ : Type} (P : ClientPrims σ) (opq : Nat → Int) (maxSize : Int) (s0 : σ) : σ × Bool × Option Int", tr_read("ClientImpl::read", p, b)))
     _, runb = extract(srv, "Server::Private::run", r"void\s+Server\s*::\s*Private\s*::\s*run")
-    order, bodies = dispatch_chain(runb)
+    try:
+        order, bodies, evname = dispatch_chain(runb)
+    except Refuse:
+        # the chain may live in a function that run() calls (`dispatch(pollEvent)`)
+        found = [h["body"] for n, h in HELPERS_PRIVATE.items() if re.search(r"\.\s*flags\s*&\s*(?:Socket\s*::\s*)?(?:Poll\s*::\s*)?readFlag", h["body"])]
+        called = [n for n, h in HELPERS_PRIVATE.items() if re.search(r"\.\s*flags\s*&\s*(?:Socket\s*::\s*)?(?:Poll\s*::\s*)?readFlag", h["body"])
+                  and re.search(r"\b" + n + r"\s*\(\s*pollEvent\s*\)\s*;", runb)]
+        if len(called) != 1:
+            raise
+        order, bodies, evname = dispatch_chain(HELPERS_PRIVATE[called[0]]["body"])
+    EVENT_NAMES.clear(); EVENT_NAMES.add(evname)
     for want in ("readFlag", "writeFlag"):
         if want not in bodies:
             raise Refuse(f"run(): no branch for {want}")
